@@ -1,5 +1,8 @@
 """C10 — stdlib array, set and higher-order functions match their reference definitions.
 
+Part More (coq/theories/C10/ModelMore.v ...): 15 builtins over arrays of LAZY elements, see gen_lazy_cases /
+correspond_lazy below.
+
 Theorems: coq/theories/C10 (the merge loops of std.setUnion/setInter/setDiff, the binary search
 of std.setMember, uniq, the sort-type classifier + stable sort, the flattenArrays tree, the join
 loop and std.remove refine the documented definitions, for ALL lists and EVERY key function).
@@ -919,7 +922,12 @@ RULE = ("one case = one call std.<f>(args) of the 35 functions named by the prop
         "SPEC's std.set and all pairs per key function; index arguments -3..len+3; key / predicate / map / fold "
         "functions from a pool of 18+8; arrays of 21..100 elements for the sort paths; distinct = distinct "
         "Jsonnet call text; non-trivial = an array/string argument of length >= 2 (or range/repeat/makeArray/"
-        "flattenDeepArray/deepJoin)")
+        "flattenDeepArray/deepJoin); PART MORE: one case = one call of any/all/count/member/contains/find/remove/"
+        "foldl/foldr/map/reverse/minArray/maxArray/startsWith/endsWith on arrays whose elements may be `error`: "
+        "exhaustive to length 3 over {1, 2, failing} (any/all: {true, false, failing, 1}), all pairs to length 2 for "
+        "startsWith/endsWith, random arrays to length 4 (thorough 6) over 7 pools, ties and incomparable first keys "
+        "for minArray/maxArray with 9 key functions and onEmpty absent/failing/value; an array result is observed "
+        "by std.length and element by element; non-trivial = an array of length >= 2")
 TRUSTED = ["Coq 8.16.1 kernel incl. vm_compute (no native_compute)",
            "no axioms (all C10 theorems closed under the global context)",
            "SPEC = my reading of the std.jsonnet reference definitions (written from memory; network sealed)",
@@ -930,7 +938,10 @@ TRUSTED = ["Coq 8.16.1 kernel incl. vm_compute (no native_compute)",
            "IEEE division of std.avg done by Python on the exact quotient the model returns"]
 ASSUMPTIONS = ["impl-model transliterates sets.rs / sort.rs / arrays.rs loops; tie = differential run on every check",
                "numbers in cases are small integers (number equality / comparison semantics are C09's)",
-               "values are fully evaluated (no erroring array elements): laziness is C03's",
+               "part More: an element is a value or a failure (which elements are forced is judged; sharing and "
+               "evaluation counts are C03's); everywhere else values are fully evaluated",
+               "part More judges a call inside a known class (Coq: lknown) against the impl-model; if the code "
+               "follows the definition there, the finding is stale and the check fails",
                "calls whose outcome the documentation leaves open (non-set arguments of set functions, key "
                "functions undefined on an element, sums over strings, null from an array flatMap function) are "
                "compared with the impl-model only"]
